@@ -250,7 +250,7 @@ pub fn run_write_deviation_slice(report: &mut Report) {
         let mut seen: HashSet<String> = HashSet::new();
         for o in std::iter::once(&base).chain(outcomes.iter()) {
             for (signature, detail) in &o.problems {
-                if !(signature.contains("not-a-valid-mqtt-stream") || signature.contains("corrupted") || signature.contains("duplicated") || signature.contains("first-packet-not-connect") || signature.contains("stops-making-progress")) { continue; }
+                if !(signature.contains("not-a-valid-mqtt-stream") || signature.contains("corrupted") || signature.contains("duplicated") || signature.contains("first-packet-not-connect") || signature.contains("stops-making-progress") || signature.contains("writes-without-bound")) { continue; }
                 if !seen.insert(signature.clone()) { continue; }
                 let again = guarded(|| execute(&o.plan)).map(|a| a.problems.iter().any(|(s, _)| s == signature)).unwrap_or(false);
                 if !again { continue; }
